@@ -5,7 +5,7 @@
 #   and runs the property's check against the patched tree.  Prints one summary line.
 set -u
 d="$(readlink -f "$1")"; tier="${2:-quick}"; nobase="${3:-}"
-pid=$(/venv/bin/python -c "import json,sys;print(json.load(open(sys.argv[1]))['property'])" "$d/meta.json")
+pid=$(basename "$d" | cut -d- -f1)   # (some meta.json files carry the property title after the id)
 wt="/dev/shm/vmc-seed-$$"
 git -C /repo worktree add -q --detach "$wt" HEAD || exit 3
 trap 'git -C /repo worktree remove --force "$wt" >/dev/null 2>&1; git -C /repo worktree prune' EXIT
